@@ -146,6 +146,7 @@ let rec model_of p = match p with
   | "C11" -> c11_model
   | "C08" -> c08_model
   | "C20" -> c20_run false
+  | "C16" -> C16.model
   | "C04" | "C05" | "C12" | "C09" | "C10" -> Rp.model
   | "C13" -> (fun c -> match c with
       | L (A "rp" :: _) -> (match Rp.model c with L [A "regpanic"] -> L [A "reg"; A "panic"] | _ -> L [A "reg"; A "ok"])
@@ -158,6 +159,7 @@ let judge_of = function
   | "C11" -> judge_eq c11_spec
   | "C08" -> c08_judge
   | "C20" -> c20_judge
+  | "C16" -> C16.judge
   | "C12" -> Rp.c12_judge
   | "C04" -> Rp.c04_judge
   | "C05" -> Rp.c05_judge
